@@ -131,9 +131,12 @@ def describe(model, idmap, probe):
 
 def run_case(c):
     prog = c["program"]
-    model, pool = vbuild.build(af, prog)
+    # priors first (some carry their own width modifier), then the composition: component copies made by the program
+    # (Model.copy() deep-copies prior objects, keeping their ids) then carry the modifier as well
+    pool = [vbuild.make_prior(af, s) for s in prog["pool"]]
     for k, d in (c.get("wms") or {}).items():
         pool[int(k)].width_modifier = make_wm(d)
+    model = vbuild.build_expr(af, prog["root"], pool)
     idmap = {p.id: i for i, p in enumerate(pool)}
     npool = len(pool)
     mode = c["mode"]
